@@ -10,7 +10,11 @@ from __future__ import annotations
 
 import itertools
 import json
+import multiprocessing
+import os
 import shutil
+import traceback
+from pathlib import Path
 
 import c03_impl as c3
 from coqbridge import fl
@@ -24,8 +28,9 @@ RULE = ("Layouts: 2-9 frames on the model time grid with spacings from 1 step up
         "offset between frames and continued to the last frame, forward and reversed, with and without a scalar field; "
         "an exact stream (frame values = cumulative sums of spacing x dyadic slope, so every float operation is exact; "
         "compared with Qeq) and a general stream (random decimal values; tolerance 1e-9). Observed at every step: "
-        "velocity at fractions 0, 1/2, 1, variables[u], scalar. Thorough: the complete family of layouts with <= 6 "
-        "frames, spacings <= 4 steps, <= 3 files, every start offset, both directions. "
+        "velocity at fractions 0, 1/2, 1, variables[u], scalar. Thorough: the complete family of layouts with <= 5 "
+        "frames and spacings <= 4 steps, and with 6 frames and spacings <= 3 steps (<= 4 with C03_FULL=1), each split in "
+        "every way into <= 3 files, every start offset, both directions. "
         "Non-trivial = a run with at least one hand-over at a frame step after step 0 and a slope change; "
         "key = (spacings, partition, offset, direction, scalar).")
 TRUSTED = ["Coq 8.16.1 kernel + vm_compute", "hand-written model coq/Model/ForcingTime.v tied by this correspondence",
@@ -96,13 +101,20 @@ def family(spacings, parts, scalar, exact, uvals, tvals, offsets=None, dirs=(Fal
     return {"batch": lays, "scalar": bool(scalar), "exact": bool(exact)}
 
 
+# complete family of the thorough tier: (number of frames, largest spacing); C03_FULL=1 takes spacing <= 4
+# for 6 frames as well (410 000 more runs of the real code, about 45 minutes on 14 cores)
+FAMILY = [(2, 4), (3, 4), (4, 4), (5, 4), (6, 4 if os.environ.get("C03_FULL") == "1" else 3)]
+_PENDING = []   # descriptions of the complete family, evaluated by a process pool on first use
+_PRE = {}       # bid -> result
+
+
 def gen_cases(ctx):
     rng = ctx.rng
     out = []
     if not ctx.quick:
-        # complete family: <= 6 frames, spacing <= 4, <= 3 files, every offset, both directions
-        for m in range(2, 7):
-            for spacings in itertools.product((1, 2, 3, 4), repeat=m - 1):
+        # complete family: every spacing vector, every split into <= 3 files, every offset, both directions
+        for m, smax in FAMILY:
+            for spacings in itertools.product(range(1, smax + 1), repeat=m - 1):
                 uv = exact_values(spacings)
                 tv = [10.0 * (j + 1) for j in range(m)]
                 for parts in compositions(m, 3):
@@ -140,6 +152,11 @@ def gen_cases(ctx):
         cum = list(itertools.accumulate(spacings))
         offs = sorted(set(offs + [c for c in cum[:-1] if rng.random() < 0.5]))
         out.append(family(spacings, parts, scalar, exact, uv, tv, offsets=offs))
+    if not ctx.quick:
+        for k, fam in enumerate(out):
+            fam["bid"] = k
+        _PENDING[:] = out
+        _PRE.clear()
     return out
 
 
@@ -215,12 +232,41 @@ def trace(d, lay, scalar, files_ready):
 _counter = itertools.count()
 
 
+def _worker(arg):
+    desc, root = arg
+    try:
+        return desc["bid"], evaluate(desc, Path(root) / f"p{os.getpid()}_{desc['bid']}")
+    except (Exception, SystemExit) as e:  # noqa: BLE001
+        return desc["bid"], {"ints": None, "oracle": f"unexpected exception {type(e).__name__}: {e}",
+                             "nontrivial": None, "trace": traceback.format_exc()[-1500:]}
+
+
+def _precompute(ctx):
+    """the complete family is large: evaluate it with a pool of forked workers (each imports the same ladim)"""
+    todo = list(_PENDING)
+    _PENDING.clear()
+    nproc = max(1, min(int(os.environ.get("C03_JOBS", "14")), os.cpu_count() or 1))
+    root = ctx.subdir("pool")
+    with multiprocessing.get_context("fork").Pool(nproc) as pool:
+        for bid, res in pool.imap_unordered(_worker, [(d, str(root)) for d in todo], chunksize=16):
+            _PRE[bid] = res
+
+
 def eval_case(desc, ctx):
+    bid = desc.get("bid")
+    if bid is not None and _PENDING and not ctx.quick:
+        _precompute(ctx)
+    if bid is not None and bid in _PRE:
+        return _PRE.pop(bid)
+    return evaluate(desc, ctx.subdir(f"c03_{next(_counter)}"))
+
+
+def evaluate(desc, d):
     if "batch" in desc:
         lays, scalar, exact = desc["batch"], desc.get("scalar", True), desc.get("exact", True)
     else:
         lays, scalar, exact = [desc], desc.get("scalar", True), desc.get("exact", True)
-    d = ctx.subdir(f"c03_{next(_counter)}")
+    d.mkdir(parents=True, exist_ok=True)
     ints, problems, keys, summary = [], [], [], []
     try:
         for k, lay in enumerate(lays):
@@ -239,4 +285,14 @@ def eval_case(desc, ctx):
     nfiles = len(lays[0]["files"])
     kind = ("exact" if exact else "general") + ("-scalar" if scalar else "-noscalar") + f"-{nfiles}file"
     return {"ints": ints, "oracle": "; ".join(problems[:3]) or None,
-            "nontrivial": (tuple(keys) if keys else None), "kind": kind, "observed": summary}
+            "nontrivial": (tuple(keys) if keys else None), "kind": kind, "observed": summary,
+            "layouts": len(lays), "nontrivial_layouts": len(keys)}
+
+
+def extra_coverage(ctx, results):
+    """cases of this property are batches of layouts; report the layout counts as well"""
+    return {"layouts_run": sum(r.get("layouts", 0) for r in results),
+            "nontrivial_layouts": sum(r.get("nontrivial_layouts", 0) for r in results),
+            "complete_family": None if ctx.quick else
+            "; ".join(f"{m} frames: spacings 1..{smax}" for m, smax in FAMILY)
+            + "; 1..3 files (every split into consecutive blocks), every start offset, both directions"}
